@@ -190,7 +190,12 @@ def Bandit.impAddArm (b : Bandit α) (a : α) (binz : Option (α → Rat → Rat
   match b.np with
   | .none => { b1 with lp := b.lp.addArm a binz }
   | .radius .. | .knn .. | .lsh .. =>
-    { b1 with lp := b.lp.addArm a binz, npExp := b.npExp.set a .nan }
+    -- a new binarizer applies to subsequent observations only: the stored rewards stay as they are
+    let lp := b.lp.addArm a binz
+    { b1 with lp := (match lp.kind, binz with
+                     | .thompson, some _ => { lp with ctxBin := true }
+                     | _, _ => lp),
+              npExp := b.npExp.set a .nan }
   | .clusters _ =>
     { b1 with lps := b.lps.map fun l => l.addArm a binz, npExp := b.npExp.set a (.val 0) }
   | .tree =>
